@@ -22,6 +22,10 @@ claimed["C10"] = dict(engine="cesium-seq", cat="exploration", ref="DESIGN.md §5
    text="Seeded command sequences (SeekFirst/SeekLast/SeekLE/SeekGE, Next/Prev with spans from 1ns to the maximum, auto-span steps with chunk sizes 1-7, SetBounds) on the per-channel iterator over layouts built by C01/C04 scripts (multi-domain, rollover, out-of-order, deletes, GC). After every judged step: returned samples == reference samples inside the REPORTED view, adjacent views in one direction, chunk bound, exactly-once and completeness of SeekFirst/SeekLast-started traversals.",
    note="Steps after a failed seek are not judged; seek targets are clamped into the bounds. Auto-span steps and fixed-span steps of walks that reversed direction are attributed to two recorded known findings (see known_findings.json); monotone fixed-span walks are judged strictly.",
    tech=TECH+": seeded op-tier command sequences against a reference model using the iterator's reported view, rapid shrinking, replay files")
+claimed["C03"] = dict(engine="cesium-domain", cat="exploration", ref="DESIGN.md §5 C03",
+   text="Seeded histories of open(start[, preset end]) / write / commit(end) / close / delete / reopen over several writers on one domain database, timestamps drawn on, next to and inside earlier ranges; after every operation the pointer list (read under the package's own lock) must be sorted, pairwise non-overlapping, non-empty and inside its files, and the enumerated domains with their bytes must equal an interval-set model that decides which opens/commits must fail with a validation error and which must succeed.",
+   note="In-package harness on cesium/internal/domain (white-box via -overlay). File-size cap at the default (rollover layouts are C01's). Equal-to-previous-commit and empty commits are left open, as is the error kind for exceeding a preset end.",
+   tech=TECH+": seeded op-tier histories on the simulated disk against an interval-set model with per-step invariants, rapid shrinking")
 not_applicable = {
  "C19": "Pure function of (source, arguments): the Arc compiler/analyzer/wazero call path has no goroutines, timers, I/O, transport or storage for a scheduler, clock or fault injector to act on; generating programs would be input generation in simulator costume (DESIGN.md §1).",
 }
@@ -58,6 +62,7 @@ m = {
  },
  "engines": [
   {"name": "cesium-seq", "path": "/verif/harness/cesium", "serves_properties": ["C01", "C04", "C10"], "kind_free_text": "op-tier deterministic simulation of real cesium on simfs + virtual clock"},
+  {"name": "cesium-domain", "path": "/verif/harness/cesium/internal/domain", "serves_properties": ["C03"], "kind_free_text": "in-package op-tier simulation of cesium/internal/domain on simfs"},
   {"name": "cesium-crash", "path": "/verif/harness/cesium/zz_verif_c02_test.go", "serves_properties": ["C02"], "kind_free_text": "crash-point enumeration over the simulated disk's mutation log"},
  ],
  "checks": checks,
